@@ -106,6 +106,18 @@ def family_scenarios(thorough=False):
             out.append(base(i, members=n0, mode="family-md-race", horizon=5.0, steps=[(1.0, "start", n0)],
                             mdrace={"client": "m0", "nth": 1, "delay": 0.8, "at": at}))
             i += 1
+    # (4) members with different subscriptions; a topic the leader (first joiner) does not read itself grows:
+    #     only the leader watches the metadata on behalf of the group, over the union of all subscriptions
+    for cfg in (["range"], ["roundrobin", "range"], ["sticky"]):
+        for ac in (True, False):
+            out.append(base(i, members=1, cfg=cfg, auto_commit=ac, mode="family-group-subscription", horizon=4.0,
+                            subs={"0": ["t"], "1": ["t", "u"]},
+                            steps=[(0.6, "start", 1), (2.0, "add_partitions", "u")]))
+            i += 1
+    out.append(base(i, members=1, mode="family-group-subscription", horizon=5.0,
+                    subs={"0": ["t"], "1": ["u"], "2": ["u", "v"]},
+                    steps=[(0.6, "start", 1), (1.2, "start", 2), (2.5, "add_partitions", "v"), (3.0, "add_partitions", "u")]))
+    i += 1
     return out
 
 
@@ -133,7 +145,7 @@ def gen_scenario(rng, idx, thorough=False):
     t = 0.0
     next_id = n0
     alive = list(range(n0))
-    mode = rng.choice(["clean", "faults", "faults", "churn", "churn", "failover", "mixed", "hbreset", "syncerr"])
+    mode = rng.choice(["clean", "faults", "faults", "churn", "churn", "failover", "mixed", "hbreset", "syncerr", "subs"])
     sc["mode"] = mode
     if mode == "hbreset":
         # the heartbeat task ends by itself: reply UNKNOWN_MEMBER_ID / ILLEGAL_GENERATION, or the group state is lost
@@ -144,6 +156,21 @@ def gen_scenario(rng, idx, thorough=False):
             else:
                 sc["steps"].append((rng.choice([0.8, 1.5, 2.5]), "move_lose", None))
         sc["steps"].sort()
+    if mode == "subs":
+        # per-member subscriptions over 2-3 topics, one member after the other (join order = who leads), then
+        # a random topic that somebody reads grows
+        pool = rng.choice([["t", "u"], ["t", "u", "v"]])
+        nm = rng.choice([2, 2, 3, 4])
+        n0 = sc["members"] = 1
+        sc["subs"] = {str(j): sorted(rng.sample(pool, rng.randrange(1, len(pool) + 1))) for j in range(nm)}
+        tt = 0.0
+        for j in range(1, nm):
+            tt += rng.choice([0.4, 0.7, 1.1])
+            sc["steps"].append((round(tt, 2), "start", j))
+        read = sorted({x for v in sc["subs"].values() for x in v})
+        for _ in range(rng.randrange(1, 3)):
+            tt += rng.choice([0.5, 1.0, 1.6])
+            sc["steps"].append((round(tt, 2), "add_partitions", rng.choice(read)))
     if mode == "syncerr":
         # a rebalance of members that already hold an assignment, its SyncGroup answered with a coordinator error
         sc["steps"].append((rng.choice([0.8, 1.2, 2.0]), "start", n0))
@@ -191,7 +218,8 @@ class Member:
     def __init__(self, env, cluster, sc, i):
         self.i = i
         self.cid = f"m{i}"
-        self.topics = ["t"]
+        # per-member subscription (scenario key "subs": member index -> topics); default: everybody reads t
+        self.topics = list((sc.get("subs") or {}).get(str(i), ["t"]))
         cfg = list(sc["cfg"])
         if sc["permute"] and i % 2 == 1:
             cfg = cfg[1:] + cfg[:1]
@@ -301,12 +329,14 @@ async def scenario_main(env, cluster, sc, out):
         elif what == "subscribe":
             m = members[arg]
             if m.state == "running":
-                m.topics = ["t", "u"] if m.topics == ["t"] else ["t"]
+                m.topics = [x for x in m.topics if x != "u"] if "u" in m.topics and len(m.topics) > 1 else m.topics + ["u"]
                 env.mark(m.cid, "U")
                 m.consumer.subscribe(m.topics)
         elif what == "add_partitions":
-            sc["parts"] += 1
-            cluster.add_partitions("t", sc["parts"])
+            topic = arg or "t"              # arg: the topic that grows (default t)
+            cluster.add_partitions(topic, cluster.topics[topic] + 1)
+            if topic == "t":
+                sc["parts"] = cluster.topics["t"]
             for m in members.values():
                 if m.state in ("running", "starting"):
                     env.mark(m.cid, "M")
@@ -437,7 +467,7 @@ def run_scenario(env, sc):
     versions = {"JoinGroup": (0, sc["join_v"])}
     if sc["join_v"] < 3:
         versions["SyncGroup"] = (0, min(1, sc["join_v"]))
-    cluster = S.SimCluster(nodes=3, topics={"t": sc["parts"], "u": 2}, seed=sc["seed"],
+    cluster = S.SimCluster(nodes=3, topics={"t": sc["parts"], "u": 2, "v": 2}, seed=sc["seed"],
                            api_versions=versions, jitter=sc["jitter"])
     for f in sc["faults"]:
         kw = {k: v for k, v in f.items() if k not in ("kind",) and v is not None}
